@@ -432,7 +432,7 @@ def r6(ctx):
     # open_meta
     b = ctx.fbody(name="open_meta", self_adt=ACTIVE, trait="")
     got = {}
-    for g, term, bi in b.local_cases(0):
+    for g, term, bi in b.expanded_cases(0):
         for conj in g:
             for a in conj:
                 if a[0] == "is" and render(a[1]) == "self":
@@ -452,7 +452,7 @@ def r6(ctx):
     # to_active
     t = ctx.fbody(name="to_active", self_adt="barter_execution::order::Order", trait="")
     res = {}
-    for g, term, bi in t.local_cases(0):
+    for g, term, bi in t.expanded_cases(0):
         for conj in g:
             for a in conj:
                 if a[0] == "is" and render(a[1]) == "self.state":
